@@ -28,6 +28,51 @@ theorem emb_binary (e : Expr) (op : Str) (p : Int) (x y : Node) (hf : FragE0 e =
 theorem embLv_name_ok (lv : Expr) (l : Node) (h : EmbLv lv l) : ∃ nm, l.name = .ok nm :=
   embLv_name lv l h   -- agent-link's lemma (Drx/Link.lean): follows every extension of `EmbLv`
 
+theorem idOk_ne_one (v : Spec.Name) (h : idOk v = true) : v ≠ S "1" := by
+  intro e; subst e
+  have : idOk (S "1") = false := by decide
+  rw [this] at h; cases h
+
+/-- the name of an assignment target of the fragment is never the string `1` (the name of the counter of `repeat with … in`) -/
+theorem embLv_name_ne1 (lv : Expr) (l : Node) (hf : FragLv lv = true) (h : EmbLv lv l) : ∃ nm, l.name = .ok nm ∧ nm ≠ .s (S "1") := by
+  cases lv with
+  | var k v =>
+    simp only [FragLv] at hf
+    have hv : Lscr.Name.s v ≠ .s (S "1") := fun e => idOk_ne_one v hf (Lscr.Name.s.inj e)
+    cases k <;> simp only [EmbLv] at h
+    · obtain ⟨p, rfl⟩ := h; exact ⟨_, rfl, hv⟩
+    · obtain ⟨p, rfl⟩ := h; exact ⟨_, rfl, hv⟩
+    · obtain ⟨p, rfl⟩ := h; exact ⟨_, rfl, hv⟩
+    · obtain ⟨p, q, rfl⟩ := h; exact ⟨_, rfl, by decide⟩
+  | oprop v o => simp only [EmbLv, Emb] at h; obtain ⟨p, x, rfl, _⟩ := h; exact ⟨_, rfl, by decide⟩
+  | the t k as =>
+    simp only [FragLv, Bool.and_eq_true] at hf
+    simp only [EmbLv] at h
+    cases as with
+    | nil =>
+      cases t with
+      | sys => simp only [Emb] at h; obtain ⟨p, q, o, rfl, _⟩ := h; exact ⟨_, rfl, by decide⟩
+      | special =>
+        simp only [Emb] at h; obtain ⟨p, rfl⟩ := h
+        have hk : k < 6 := by have := hf.1; simpa [FragE] using this
+        refine ⟨_, rfl, ?_⟩
+        have : k = 0 ∨ k = 1 ∨ k = 2 ∨ k = 3 ∨ k = 4 ∨ k = 5 := by omega
+        rcases this with rfl | rfl | rfl | rfl | rfl | rfl <;> decide
+      | _ => exact absurd h (by simp [Emb])
+    | cons x xs =>
+      cases xs with
+      | nil =>
+        simp only [Emb] at h
+        rcases h with ⟨p, q, cls, tb, w, nm, _, _, rfl⟩ | ⟨p, y, op, r, ty, hst, _, rfl, _⟩ | ⟨_, p, q, y, rfl, _⟩
+        · exact ⟨_, rfl, by decide⟩
+        · refine ⟨_, rfl, ?_⟩
+          have hop : op = S "number" ∨ op = S "last" := by
+            cases t <;> simp [strThe] at hst <;> first | exact Or.inr hst.2.1.symm | exact Or.inl hst.1.symm
+          rcases hop with rfl | rfl <;> decide
+        · exact ⟨_, rfl, by decide⟩
+      | cons y ys => cases t <;> exact absurd h (by simp [Emb])
+  | _ => simp [FragLv] at hf
+
 theorem binName_add (o : BinOp) (h : binName o = S "add") : o = .add := by
   cases o <;> first | rfl | (exact absurd h (by decide))
 
@@ -118,6 +163,7 @@ def okAmb1 (prevSet : Bool) : Stmt → Bool
   | .ifThen _ t e => okAmbs false t && okAmbs false e
   | .repeatWhile c b => !intLeft c && !(prevSet && lastStepLike b) && okAmbs false b
   | .repeatWith _ _ _ _ body => okAmbs false body
+  | .repeatIn _ _ body => okAmbs false body
   | _ => true
 def okAmbs (prevSet : Bool) : List Stmt → Bool
   | [] => true
@@ -180,6 +226,15 @@ theorem lastNode1_notStep (s : Stmt) (y : Src) (hfr : FragT s = true) (h : EmbSr
       | loc =>
         obtain ⟨pre, incr, csz, body', p1, p2, p3, p4, p5, pv1, pv2, pv3, pv4, ra, rb, rfl, _⟩ := h
         rw [tgtC_lower1_with]; exact notStep_of_cls _ _ (by simp [Node.cls, rawLoop])
+      | _ => obtain ⟨sm, p, rfl, _, he, _⟩ := h; simp [EmbS] at he
+    | _ => obtain ⟨sm, p, rfl, _, he, _⟩ := h; simp [EmbS] at he
+  | repeatIn v l body =>
+    cases v with
+    | var k n =>
+      cases k with
+      | loc =>
+        obtain ⟨presz, bp, incrsz, postsz, csz, body', pb, pk, pc, pl, ps, pg, pl2, pv, ln, rfl, _⟩ := h
+        rw [tgtC_lower1_in]; exact notStep_of_cls _ _ (by simp [Node.cls, rawLoop])
       | _ => obtain ⟨sm, p, rfl, _, he, _⟩ := h; simp [EmbS] at he
     | _ => obtain ⟨sm, p, rfl, _, he, _⟩ := h; simp [EmbS] at he
   | set lv v =>
@@ -270,7 +325,7 @@ theorem lastNode_notStep : ∀ (b : List Stmt) (b' : List Src), FragTs b = true 
     binary operation; if it is, it is an assignment whose left side has a name -/
 def PrevInv (prevSet : Bool) (prev : Option Node) : Prop :=
   prev = none ∨ ∃ p c, prev = some (.stmt p c) ∧
-    (c.cls ≠ .binary ∨ (prevSet = true ∧ ∃ pop q pl pr, c = .binary pop q pl pr ∧ ∃ nm, pl.name = .ok nm))
+    (c.cls ≠ .binary ∨ (prevSet = true ∧ ∃ pop q pl pr, c = .binary pop q pl pr ∧ ∃ nm, pl.name = .ok nm ∧ nm ≠ .s (S "1")))
 
 theorem plain_simpleCode' {p : Int} {c : Node} (h : PlainStmt (.stmt p c)) : simpleCode c = true := by
   cases h <;> rfl
@@ -285,10 +340,25 @@ theorem emb_cond_name (c : Expr) (cond : Node) (hf : FragE0 c = true) (h : Emb c
 theorem isRepeatWith_prev (r : Ro) (ps : Bool) (prev : Option Node) (hp : PrevInv ps prev)
     (hcond : ∀ cn cp cl cr, r.cond = .binary cn cp cl cr → ∃ nm, cl.name = .ok nm)
     (hlast : ps = true → NotStepNode r.stmts.reverse.head?) : isRepeatWith r prev = .ok false := by
-  rcases hp with rfl | ⟨p, c, rfl, h | ⟨hps, pop, q, pl, pr, rfl, hnm⟩⟩
+  rcases hp with rfl | ⟨p, c, rfl, h | ⟨hps, pop, q, pl, pr, rfl, nm, hnm, _⟩⟩
   · rfl
   · exact isRepeatWith_notBinary r p c h
-  · exact isRepeatWith_notStep r p q pop pl pr hnm hcond (hlast hps)
+  · exact isRepeatWith_notStep r p q pop pl pr ⟨nm, hnm⟩ hcond (hlast hps)
+
+/-- `is_repeat_with` says no to a loop whose condition compares the constant `1` (the counter of `repeat with … in`): the
+    statement before the loop assigns to something whose name is not `1` -/
+theorem isRepeatWith_in (r : Ro) (ps : Bool) (prev : Option Node) (hp : PrevInv ps prev) (cn : Str) (cp pk : Int) (cr : Node)
+    (hc : r.cond = .binary cn cp (.leaf .const (.s (S "1")) pk) cr) : isRepeatWith r prev = .ok false := by
+  rcases hp with rfl | ⟨p, c, rfl, h | ⟨hps, pop, q, pl, pr, rfl, nm, hnm, hne⟩⟩
+  · rfl
+  · exact isRepeatWith_notBinary r p c h
+  · unfold isRepeatWith
+    simp only
+    split
+    · rfl
+    · have hk : (Node.leaf Leaf.const (Lscr.Name.s (S "1")) pk).name = .ok (.s (S "1")) := rfl
+      simp only [hnm, bind, Except.bind, hc, hk]
+      simp [hne, pure, Except.pure]
 
 theorem emb_notIntLeft (c : Expr) (cond : Node) (hf : FragE0 c = true) (h : Emb c cond) (hn : intLeft c = false) :
     ∀ op p l rr, cond = .binary op p l rr → l.cls ≠ .leaf .const := by
@@ -296,6 +366,26 @@ theorem emb_notIntLeft (c : Expr) (cond : Node) (hf : FragE0 c = true) (h : Emb 
   subst e
   obtain ⟨o, a, b, rfl, _, ha, _, hfa, _⟩ := emb_binary c op p l rr hf h
   rcases emb_const a l hfa ha hc with ⟨k, rfl⟩ | ⟨s, rfl⟩ <;> simp [intLeft] at hn
+
+/-- the components `inParts` extracts from the condition and the first body statement of an embedded `repeat with … in` -/
+theorem inParts_emb (l : Expr) (ln : Node) (hl : Emb l ln) (v : Spec.Name) (pb pk pc pl ps pg pl2 pv : Int) :
+    inParts (.binary (S "lte") pb (.leaf .const (.s (S "1")) pk)
+        (.callFn (.s (S "count")) pc (.loadList (S "<load_list>") pl [ln]) true false false .none))
+      (.binary (S "assign") ps (.leaf .localVar (.s v) pv)
+        (.callFn (.s (S "getAt")) pg (.loadList (S "<load_list>") pl2 [.leaf .const (.s (S "1")) pk, ln]) true false false .none)) =
+      some (ln, .s v, .leaf .localVar (.s v) pv) := by
+  obtain ⟨lnm, hlnm⟩ := emb_name l ln hl
+  have hlnone := emb_isNone l ln hl
+  have hself : ln.pyEq ln = true := by
+    unfold Node.pyEq
+    cases ln <;> first | (simp [Node.isNone] at hlnone; done) | (simp only [Node.name] at hlnm; simp [hlnm, Node.name])
+  have g1 : pyGet [ln] 0 = .ok ln := rfl
+  have g2 : pyGet [Node.leaf Leaf.const (Lscr.Name.s (S "1")) pk, ln] 1 = .ok ln := rfl
+  have g3 : pyGet [Node.leaf Leaf.const (Lscr.Name.s (S "1")) pk, ln] 0 = .ok (Node.leaf Leaf.const (Lscr.Name.s (S "1")) pk) := rfl
+  have g4 : (Node.leaf Leaf.localVar (Lscr.Name.s v) pv).name = .ok (.s v) := rfl
+  have hK : (Node.leaf Leaf.const (Lscr.Name.s (S "1")) pk).pyEq (Node.leaf Leaf.const (Lscr.Name.s (S "1")) pk) = true := by
+    simp [Node.pyEq, Node.cls, Node.name, Node.pos]
+  simp only [inParts, g1, g2, g3, g4, hself, hK, and_self, if_true]
 
 mutual
 theorem class1 : (s : Stmt) → (x : Src) → FragT s = true → EmbSrc1 s x → ∀ (ps : Bool) (prev : Option Node) (o : Int), PrevInv ps prev →
@@ -339,14 +429,15 @@ theorem class1 : (s : Stmt) → (x : Src) → FragT s = true → EmbSrc1 s x →
         simp [Node.cls])
     · simp only [tgtL1, hparts, lastOr]
       exact Or.inr ⟨_, _, rfl, Or.inl (by simp [Node.cls])⟩
-  | .set lv v, x, _, h, ps, prev, o, _, _ => by
+  | .set lv v, x, hfr, h, ps, prev, o, _, _ => by
     obtain ⟨⟨sz, off, code⟩, p, rfl, ho, he, hpl⟩ := h
     refine ⟨ok_simple.2 ⟨ho, plain_simpleCode' hpl⟩, ?_⟩
     simp only [EmbS] at he
     obtain ⟨p', q, l, r, he, hlv, _⟩ := he
     cases he
     simp only [tgtL1, lastOr, isSet]
-    exact Or.inr ⟨_, _, rfl, Or.inr ⟨rfl, _, _, _, _, rfl, embLv_name_ok lv l hlv⟩⟩
+    have hflv : FragLv lv = true := by simp only [FragT, FragS, Bool.and_eq_true] at hfr; exact hfr.1.1
+    exact Or.inr ⟨_, _, rfl, Or.inr ⟨rfl, _, _, _, _, rfl, embLv_name_ne1 lv l hflv hlv⟩⟩
   | .call f as, x, _, h, ps, prev, o, _, _ => by
     obtain ⟨⟨sz, off, code⟩, p, rfl, ho, he, hpl⟩ := h
     refine ⟨ok_simple.2 ⟨ho, plain_simpleCode' hpl⟩, ?_⟩
@@ -396,7 +487,19 @@ theorem class1 : (s : Stmt) → (x : Src) → FragT s = true → EmbSrc1 s x →
     simp only [tgtL1, lastOr]
     exact Or.inr ⟨_, _, rfl, Or.inl (by simp [Node.cls])⟩
   | .tell .., x, _, h, _, _, _, _, _ => by obtain ⟨sm, p, rfl, ho, he, hp⟩ := h; exact absurd he (by simp [EmbS])
-  | .repeatIn .., x, _, h, _, _, _, _, _ => by obtain ⟨sm, p, rfl, ho, he, hp⟩ := h; exact absurd he (by simp [EmbS])
+  | .repeatIn (.var .loc v) l body, x, hfr, h, ps, prev, o, hp, hok => by
+    simp only [FragT, Bool.and_eq_true] at hfr
+    obtain ⟨presz, bp, incrsz, postsz, csz, body', pb, pk, pc, pl, ps', pg, pl2, pv, ln, rfl, ho, hc, hl, hb⟩ := h
+    simp only [okAmb1] at hok
+    have hparts : inParts (.binary (S "lte") pb (.leaf .const (.s (S "1")) pk)
+          (.callFn (.s (S "count")) pc (.loadList (S "<load_list>") pl [ln]) true false false .none)) bp.code =
+        some (ln, .s v, .leaf .localVar (.s v) pv) := by
+      rw [hc]; exact inParts_emb l ln hl v pb pk pc pl ps' pg pl2 pv
+    refine ⟨ok_in.2 ⟨ho, by rw [hc]; rfl, classs body body' hfr.2 hb false none _ (Or.inl rfl) hok, by rw [hparts]; rfl, ?_⟩, ?_⟩
+    · exact isRepeatWith_in _ ps prev hp (S "lte") pb pk _ rfl
+    · simp only [tgtL1, hparts, lastOr]
+      exact Or.inr ⟨_, _, rfl, Or.inl (by simp [Node.cls])⟩
+  | .repeatIn (.int _) .., x, _, h, _, _, _, _, _ => by obtain ⟨sm, p, rfl, ho, he, hp⟩ := h; exact absurd he (by simp [EmbS])
   | .exitRepeat, x, _, h, _, _, _, _, _ => by obtain ⟨sm, p, rfl, ho, he, hp⟩ := h; exact absurd he (by simp [EmbS])
   | .repeatWith (.int _) .., x, _, h, _, _, _, _, _ => by obtain ⟨sm, p, rfl, ho, he, hp⟩ := h; exact absurd he (by simp [EmbS])
 theorem classs : (ss : List Stmt) → (xs : List Src) → FragTs ss = true → EmbSrc ss xs → ∀ (ps : Bool) (prev : Option Node) (o : Int), PrevInv ps prev →
